@@ -10,7 +10,9 @@
      clean{rid}                 hook ds.clean (after the CAS in cleanStream)
      note{...}                  informational hook events (timers, upstream receive/reset, loop phases): no constraint
      cdone{rid, kind, status, extra, elapsed, bound}   driver: what the client observed on its connection
-     quiesce{active, ...}       driver: all gates released, timeout+slack elapsed; gauges read *)
+     quiesce{active, rq, pd, rt, ...}  driver: all gates released, timeout+slack elapsed; gauges and the clusters'
+                                circuit-breaker resources read (requests, pending, retries; summed over the clusters,
+                                relative to their values when the run began) *)
 EXTENDS RequestLifecycle, VTrace
 
 tvars == <<vars, l>>
@@ -76,6 +78,10 @@ TQuiesce == /\ IsEvent("quiesce")
             /\ Expect(\A r \in Rids : st[r] # "open", "request-never-ended")
             /\ Expect(active = Cardinality({ r \in Rids : st[r] = "open" }), "ghost-gauge")
             /\ Expect(Ev.active = Cardinality({ r \in Rids : st[r] = "open" }), "request-active-gauge-differs")
+            \* circuit-breaker books of the clusters (C10): with no request open nothing may be held
+            /\ Expect((\E r \in Rids : st[r] = "open") \/ Ev.rq = 0, "requests-resource-not-returned")
+            /\ Expect((\E r \in Rids : st[r] = "open") \/ Ev.pd = 0, "pending-resource-not-returned")
+            /\ Expect((\E r \in Rids : st[r] = "open") \/ Ev.rt = 0, "retries-resource-not-returned")
             /\ UNCHANGED vars
 
 TraceNext == TRun \/ TNew \/ TAttempt \/ TReply \/ TClientReset \/ TTerminate \/ TClean \/ TNote \/ TCDone \/ TQuiesce
